@@ -34,10 +34,11 @@ structure Abs where
   epoch : Nat
   uuid : Nat
   events : List (Nat × Str × Bool)
+  failed : List (Nat × List Str × Bool)
 
 def HubSt.abs (st : HubSt) : Abs :=
   { cfg := st.cfg, conns := st.conns.map Conn.core, index := st.index, closed := st.closed,
-    epoch := st.epoch, uuid := st.uuid, events := st.events }
+    epoch := st.epoch, uuid := st.uuid, events := st.events, failed := st.failed }
 
 theorem map_core_of_preserving {f : Conn → Conn} (hf : ∀ c, (f c).core = c.core) (conns : List Conn) :
     (conns.map f).map Conn.core = conns.map Conn.core := by
@@ -85,10 +86,11 @@ theorem Conn.replay_core (M : Str → Str → Bool) (cap : Nat) (ups : List Upda
 
 theorem abs_eq_of (st st' : HubSt) (h1 : st'.cfg = st.cfg)
     (h2 : st'.conns.map Conn.core = st.conns.map Conn.core) (h3 : st'.index = st.index)
-    (h4 : st'.closed = st.closed) (h5 : st'.epoch = st.epoch) (h6 : st'.events = st.events) :
+    (h4 : st'.closed = st.closed) (h5 : st'.epoch = st.epoch) (h6 : st'.events = st.events)
+    (h7 : st'.failed = st.failed) :
     st'.abs = { st.abs with uuid := st'.uuid } := by
   unfold HubSt.abs
-  simp only [h1, h2, h3, h4, h5, h6]
+  simp only [h1, h2, h3, h4, h5, h6, h7]
 
 theorem dispatch_map_core (M : Str → Str → Bool) (idx : List Nat) (cap : Nat) (u : Update) (conns : List Conn) :
     (conns.map (fun c => if idx.contains c.label && c.matches M u then (c.enqueue cap u).1 else c)).map Conn.core
@@ -109,7 +111,7 @@ theorem HubSt.dispatch_abs (M : Str → Str → Bool) (st : HubSt) (u : Update) 
   · rw [if_neg hc]
     by_cases hid : (u.id == []) = true <;> simp only [hid, Bool.false_eq_true, ↓reduceIte] <;>
       cases hk : st.kind <;> simp only [] <;>
-      exact ⟨abs_eq_of _ _ rfl (dispatch_map_core _ _ _ _ _) rfl rfl rfl rfl, by simp, by simpa using hc⟩
+      exact ⟨abs_eq_of _ _ rfl (dispatch_map_core _ _ _ _ _) rfl rfl rfl rfl rfl, by simp, by simpa using hc⟩
 
 /-! ### subscription events -/
 
@@ -217,7 +219,15 @@ def Abs.connect (a : Abs) (c : CoreC) (n : Nat) : Abs :=
            events := a.events ++ (if a.cfg.subscriptions then c.sels.map (fun s => (c.label, s, true)) else []),
            uuid := n }
 
-/-- `Gen L a b`: `b` is obtained from `a` by abstract steps, connecting the labels `L` in order. -/
+/-- A registration that fails half-way: both rounds of events (when the hub is open), the ghost entry. -/
+def Abs.fail (a : Abs) (l : Nat) (sels : List Str) (n : Nat) : Abs :=
+  { a with events := a.events ++ (if a.cfg.subscriptions && !a.closed then sels.map (fun s => (l, s, true)) else [])
+                       ++ (if a.cfg.subscriptions && !a.closed then sels.map (fun s => (l, s, false)) else []),
+           failed := a.failed ++ [(l, sels, !a.closed)],
+           uuid := n }
+
+/-- `Gen L a b`: `b` is obtained from `a` by abstract steps, using the labels `L` in order
+    (for connections and for registrations that fail half-way). -/
 inductive Gen : List Nat → Abs → Abs → Prop
   | refl (a : Abs) : Gen [] a a
   | bump {L : List Nat} {a b : Abs} (n : Nat) (h : a.uuid ≤ n) : Gen L { a with uuid := n } b → Gen L a b
@@ -225,6 +235,8 @@ inductive Gen : List Nat → Abs → Abs → Prop
   | connect {L : List Nat} {a b : Abs} (c : CoreC) (n : Nat) (hc : a.closed = false)
       (hs : c.sid = uuidOf a.uuid) (hn : a.uuid < n) (he : c.epoch = a.epoch) (hd : c.done = false)
       (ho : c.shutdownOpen = false) : Gen L (a.connect c n) b → Gen (c.label :: L) a b
+  | fail {L : List Nat} {a b : Abs} (l : Nat) (sels : List Str) (n : Nat) (h : a.uuid ≤ n) :
+      Gen L (a.fail l sels n) b → Gen (l :: L) a b
   | close {L : List Nat} {a b : Abs} : Gen L { a with closed := true } b → Gen L a b
   | restart {L : List Nat} {a b : Abs} :
       Gen L { a with closed := false, index := [], epoch := a.epoch + 1 } b → Gen L a b
@@ -235,6 +247,7 @@ theorem Gen.trans {L1 L2 : List Nat} {a b c : Abs} (h1 : Gen L1 a b) (h2 : Gen L
   | bump n h _ ih => exact Gen.bump n h (ih h2)
   | shutdown l n h _ ih => exact Gen.shutdown l n h (ih h2)
   | connect c n hc hs hn he hd ho _ ih => exact Gen.connect c n hc hs hn he hd ho (ih h2)
+  | fail l sels n h _ ih => exact Gen.fail l sels n h (ih h2)
   | close _ ih => exact Gen.close (ih h2)
   | restart _ ih => exact Gen.restart (ih h2)
 
@@ -496,6 +509,58 @@ theorem Gen.of_connect (M : Str → Str → Bool) (tok : Str → Option Claims) 
       rw [show conn.core.label = label from hlabel] at this
       exact this
 
+/-! ### connectFailing -/
+
+def connectFailFst (M : Str → Str → Bool) (st : HubSt) (label : Nat) (r : SubReq) : SubDecision → HubSt
+  | .refused _ _ => { st with uuid := st.uuid + 1 }
+  | .accepted c priv leid =>
+    let conn : Conn := { label := label, sid := uuidOf st.uuid, sels := r.topics, allowed := priv,
+                         payload := (match c with | some c => c.mercure.payload | none => []),
+                         reqLEID := leid, respLEID := none, epoch := st.epoch }
+    let st2 := (({ st with uuid := st.uuid + 1 } : HubSt).subscriptionEvents M conn true).subscriptionEvents M conn false
+    let st3 : HubSt := { st2 with failed := st2.failed ++ [(label, r.topics, !st.closed)] }
+    st3.settle M (st3.conns.length + 2)
+
+theorem connectFailing_fst_eq (M : Str → Str → Bool) (tok : Str → Option Claims) (st : HubSt) (label : Nat)
+    (r : SubReq) :
+    (st.connectFailing M tok label r).1 = connectFailFst M st label r (subscribeDecision st.cfg tok r) := by
+  unfold HubSt.connectFailing
+  dsimp only []
+  cases subscribeDecision st.cfg tok r with
+  | refused s b => rfl
+  | accepted c priv leid => rfl
+
+theorem Gen.of_connectFailing (M : Str → Str → Bool) (tok : Str → Option Claims) (st : HubSt) (label : Nat)
+    (r : SubReq) :
+    ∃ L, L.Sublist [label] ∧ Gen L st.abs (st.connectFailing M tok label r).1.abs := by
+  rw [connectFailing_fst_eq]
+  cases subscribeDecision st.cfg tok r with
+  | refused s b => exact ⟨[], List.nil_sublist _, Gen.bump _ (Nat.le_succ _) (Gen.refl _)⟩
+  | accepted c priv leid =>
+    unfold connectFailFst
+    dsimp only []
+    generalize hconn : ({ label := label, sid := uuidOf st.uuid, sels := r.topics, allowed := priv,
+                          payload := (match c with | some c => c.mercure.payload | none => []),
+                          reqLEID := leid, respLEID := none, epoch := st.epoch } : Conn) = conn
+    have hlabel : conn.label = label := by rw [← hconn]
+    have hsels : conn.sels = r.topics := by rw [← hconn]
+    obtain ⟨h1, h2⟩ := HubSt.subscriptionEvents_abs M { st with uuid := st.uuid + 1 } conn true
+    generalize HubSt.subscriptionEvents M { st with uuid := st.uuid + 1 } conn true = st1 at h1 h2 ⊢
+    dsimp only [] at h1 h2
+    obtain ⟨h3, h4⟩ := HubSt.subscriptionEvents_abs M st1 conn false
+    generalize HubSt.subscriptionEvents M st1 conn false = st2 at h3 h4 ⊢
+    refine ⟨[label], List.Sublist.refl _,
+      Gen.fail label r.topics st2.uuid (by show st.uuid ≤ _; omega)
+        (Gen.trans' (Gen.of_eq ?_) (Gen.of_settle M _ _))⟩
+    have e : ({ st2 with failed := st2.failed ++ [(label, r.topics, !st.closed)] } : HubSt).abs =
+        { st2.abs with failed := st2.abs.failed ++ [(label, r.topics, !st.closed)] } := rfl
+    have hcfg1 : st1.cfg = st.cfg := congrArg Abs.cfg h1
+    have hcl1 : st1.closed = st.closed := congrArg Abs.closed h1
+    have hev1 : st1.events = st.events ++ (if st.cfg.subscriptions && !st.closed
+        then conn.sels.map (fun s => (conn.label, s, true)) else []) := congrArg Abs.events h1
+    rw [e, h3, hcfg1, hcl1, hev1, h1, hlabel, hsels]
+    rfl
+
 theorem filterMap_cons_toList {α β : Type} (f : α → Option β) (x : α) (xs : List α) :
     (x :: xs).filterMap f = (f x).toList ++ xs.filterMap f := by
   rw [List.filterMap_cons]; cases f x <;> rfl
@@ -505,6 +570,7 @@ theorem Gen.of_step (M : Str → Str → Bool) (tokP tokS : Str → Option Claim
   cases op with
   | publish r => exact ⟨[], List.nil_sublist _, Gen.of_publish M tokP st r⟩
   | connect l r => exact Gen.of_connect M tokS st l r
+  | connectFail l r => exact Gen.of_connectFailing M tokS st l r
   | clientClose l => exact ⟨[], List.nil_sublist _, Gen.of_clientClose M st l⟩
   | stall l b => exact ⟨[], List.nil_sublist _, Gen.of_setStalled M st l b⟩
   | failNext l => exact ⟨[], List.nil_sublist _, Gen.of_failNextWrite st l⟩
@@ -569,19 +635,53 @@ theorem eq_of_map_nodup {α β : Type} (f : α → β) {l : List α} (hu : (l.ma
     · subst h2; exact absurd (List.mem_map.2 ⟨x, hx1, h⟩) hu.1
     · exact ih hu.2 hx1 hy2
 
+/-- Every label in use: those of the connections, then those of the registrations that failed half-way. -/
+def Abs.labs (a : Abs) : List Nat := a.conns.map (·.label) ++ a.failed.map (·.1)
+
+theorem labs_nodup_conns {a : Abs} (h : a.labs.Nodup) : (a.conns.map (·.label)).Nodup :=
+  (List.nodup_append.1 h).1
+
+theorem labs_nodup_disj {a : Abs} (h : a.labs.Nodup) :
+    ∀ c ∈ a.conns, ∀ f ∈ a.failed, c.label ≠ f.1 := fun c hc f hf =>
+  (List.nodup_append.1 h).2.2 c.label (List.mem_map.2 ⟨c, hc, rfl⟩) f.1 (List.mem_map.2 ⟨f, hf, rfl⟩)
+
+theorem nodup_insert_mid {xs fs : List Nat} {c : Nat} (h : (xs ++ [c] ++ fs).Nodup) :
+    (xs ++ fs).Nodup ∧ c ∉ xs ∧ c ∉ fs := by
+  have hp : (xs ++ [c] ++ fs).Perm (c :: (xs ++ fs)) := by
+    rw [List.append_assoc]; exact List.perm_middle
+  have h' := hp.nodup_iff.1 h
+  rw [List.nodup_cons, List.mem_append, not_or] at h'
+  exact ⟨h'.2, h'.1.1, h'.1.2⟩
+
+theorem nodup_snoc {ys : List Nat} {l : Nat} (h : (ys ++ [l]).Nodup) : ys.Nodup ∧ l ∉ ys := by
+  rw [List.nodup_append] at h
+  exact ⟨h.1, fun hm => h.2.2 l hm l (List.mem_singleton.2 rfl) rfl⟩
+
 structure Inv (cfg0 : HubCfg) (a : Abs) : Prop where
   cfg : a.cfg = cfg0
   so_done : ∀ c ∈ a.conns, c.shutdownOpen = true → c.done = true
-  ev_labels : ∀ e ∈ a.events, ∃ c ∈ a.conns, c.label = e.1
+  ev_labels : ∀ e ∈ a.events, (∃ c ∈ a.conns, c.label = e.1) ∨ (∃ f ∈ a.failed, f.1 = e.1)
   ev_off : a.cfg.subscriptions = false → a.events = []
   epoch_le : ∀ c ∈ a.conns, c.epoch ≤ a.epoch
   sids : ∃ ns : List Nat, a.conns.map (·.sid) = ns.map uuidOf ∧ ns.Pairwise (· < ·) ∧ ∀ n ∈ ns, n < a.uuid
-  index : (a.conns.map (·.label)).Nodup → a.closed = false →
+  idx_sub : ∀ l ∈ a.index, ∃ c ∈ a.conns, c.label = l
+  index : a.labs.Nodup → a.closed = false →
     a.index = (a.conns.filter (fun c => !c.done && c.epoch == a.epoch)).map (·.label)
-  ev_start : (a.conns.map (·.label)).Nodup → a.cfg.subscriptions = true →
+  ev_start : a.labs.Nodup → a.cfg.subscriptions = true →
     ∀ c ∈ a.conns, aevs a.events c.label true = c.sels
-  ev_end : (a.conns.map (·.label)).Nodup → a.cfg.subscriptions = true →
+  ev_end : a.labs.Nodup → a.cfg.subscriptions = true →
     ∀ c ∈ a.conns, aevs a.events c.label false = if c.shutdownOpen then c.sels else []
+  ev_fail : a.labs.Nodup → a.cfg.subscriptions = true →
+    ∀ f ∈ a.failed, aevs a.events f.1 true = (if f.2.2 then f.2.1 else []) ∧
+                    aevs a.events f.1 false = (if f.2.2 then f.2.1 else [])
+
+/-- No event carries a label that is not in use. -/
+theorem Inv.ev_fresh {cfg0 : HubCfg} {a : Abs} (h : Inv cfg0 a) (l : Nat)
+    (h1 : ∀ x ∈ a.conns, x.label ≠ l) (h2 : ∀ f ∈ a.failed, f.1 ≠ l) : ∀ e ∈ a.events, e.1 ≠ l := by
+  intro e he
+  rcases h.ev_labels e he with ⟨x, hx, hxe⟩ | ⟨f, hf, hfe⟩
+  · rw [← hxe]; exact h1 x hx
+  · rw [← hfe]; exact h2 f hf
 
 theorem Inv.bump {cfg0 : HubCfg} {a : Abs} (h : Inv cfg0 a) (n : Nat) (hn : a.uuid ≤ n) :
     Inv cfg0 { a with uuid := n } := by
@@ -595,6 +695,7 @@ theorem Inv.restart {cfg0 : HubCfg} {a : Abs} (h : Inv cfg0 a) :
     Inv cfg0 { a with closed := false, index := [], epoch := a.epoch + 1 } :=
   { h with
     epoch_le := fun c hc => Nat.le_succ_of_le (h.epoch_le c hc)
+    idx_sub := fun l hl => by cases hl
     index := by
       intro _ _
       show [] = _
@@ -613,24 +714,24 @@ theorem Inv.connect {cfg0 : HubCfg} {a : Abs} (h : Inv cfg0 a) (c : CoreC) (n : 
   have hevents : (a.connect c n).events =
       a.events ++ (if a.cfg.subscriptions then c.sels.map (fun s => (c.label, s, true)) else []) := rfl
   have hcfg : (a.connect c n).cfg = a.cfg := rfl
-  have hlab : (a.connect c n).conns.map (·.label) = a.conns.map (·.label) ++ [c.label] := by
-    rw [hconns, List.map_append]; rfl
+  have hlab : (a.connect c n).labs = a.conns.map (·.label) ++ [c.label] ++ a.failed.map (·.1) := by
+    show (a.conns ++ [c]).map (·.label) ++ a.failed.map (·.1) = _
+    rw [List.map_append]; rfl
   have hmem : ∀ x, x ∈ (a.connect c n).conns ↔ x ∈ a.conns ∨ x = c := by
     intro x; rw [hconns, List.mem_append, List.mem_singleton]
   -- consequences of label freshness
-  have hfresh : (a.conns.map (·.label) ++ [c.label]).Nodup →
-      (a.conns.map (·.label)).Nodup ∧ (∀ x ∈ a.conns, x.label ≠ c.label) ∧ ∀ e ∈ a.events, e.1 ≠ c.label := by
+  have hfresh : (a.conns.map (·.label) ++ [c.label] ++ a.failed.map (·.1)).Nodup →
+      a.labs.Nodup ∧ (∀ x ∈ a.conns, x.label ≠ c.label) ∧ (∀ f ∈ a.failed, f.1 ≠ c.label) ∧
+        ∀ e ∈ a.events, e.1 ≠ c.label := by
     intro hnd
-    rw [List.nodup_append] at hnd
-    obtain ⟨h1, _, h3⟩ := hnd
-    have h4 : ∀ x ∈ a.conns, x.label ≠ c.label := fun x hx =>
-      h3 x.label (List.mem_map.2 ⟨x, hx, rfl⟩) c.label (List.mem_singleton.2 rfl)
-    refine ⟨h1, h4, ?_⟩
-    intro e hee
-    obtain ⟨x, hx, hxe⟩ := h.ev_labels e hee
-    rw [← hxe]; exact h4 x hx
+    obtain ⟨h1, h2, h3⟩ := nodup_insert_mid hnd
+    have h4 : ∀ x ∈ a.conns, x.label ≠ c.label := fun x hx e =>
+      h2 (e ▸ List.mem_map.2 ⟨x, hx, rfl⟩)
+    have h5 : ∀ f ∈ a.failed, f.1 ≠ c.label := fun f hf e =>
+      h3 (e ▸ List.mem_map.2 ⟨f, hf, rfl⟩)
+    exact ⟨h1, h4, h5, h.ev_fresh c.label h4 h5⟩
   refine { cfg := h.cfg, so_done := ?_, ev_labels := ?_, ev_off := ?_, epoch_le := ?_, sids := ?_,
-           index := ?_, ev_start := ?_, ev_end := ?_ }
+           idx_sub := ?_, index := ?_, ev_start := ?_, ev_end := ?_, ev_fail := ?_ }
   · intro x hx hxo
     rcases (hmem x).1 hx with hx | hx
     · exact h.so_done x hx hxo
@@ -638,9 +739,10 @@ theorem Inv.connect {cfg0 : HubCfg} {a : Abs} (h : Inv cfg0 a) (c : CoreC) (n : 
   · intro e hee
     rw [hevents] at hee
     rcases List.mem_append.1 hee with he1 | he2
-    · obtain ⟨x, hx, hxe⟩ := h.ev_labels e he1
-      exact ⟨x, (hmem x).2 (Or.inl hx), hxe⟩
-    · refine ⟨c, (hmem c).2 (Or.inr rfl), ?_⟩
+    · rcases h.ev_labels e he1 with ⟨x, hx, hxe⟩ | hf
+      · exact Or.inl ⟨x, (hmem x).2 (Or.inl hx), hxe⟩
+      · exact Or.inr hf
+    · refine Or.inl ⟨c, (hmem c).2 (Or.inr rfl), ?_⟩
       split at he2
       · obtain ⟨s, _, hse⟩ := List.mem_map.1 he2
         rw [← hse]
@@ -665,16 +767,22 @@ theorem Inv.connect {cfg0 : HubCfg} {a : Abs} (h : Inv cfg0 a) (c : CoreC) (n : 
       rcases List.mem_append.1 hm with hm | hm
       · exact Nat.lt_trans (h3 m hm) hn
       · rw [List.mem_singleton.1 hm]; exact hn
+  · intro l hl
+    have hl' : l ∈ a.index ++ [c.label] := hl
+    rcases List.mem_append.1 hl' with hl1 | hl2
+    · obtain ⟨x, hx, hxl⟩ := h.idx_sub l hl1
+      exact ⟨x, (hmem x).2 (Or.inl hx), hxl⟩
+    · exact ⟨c, (hmem c).2 (Or.inr rfl), (List.mem_singleton.1 hl2).symm⟩
   · intro hnd _
     rw [hlab] at hnd
-    obtain ⟨hnd', _, _⟩ := hfresh hnd
+    obtain ⟨hnd', _, _, _⟩ := hfresh hnd
     have hidx := h.index hnd' hc
     show a.index ++ [c.label] = ((a.conns ++ [c]).filter (fun x => !x.done && x.epoch == a.epoch)).map (·.label)
     rw [List.filter_append, List.map_append, ← hidx]
     simp [hd, he]
   · intro hnd hsub x hx
     rw [hlab] at hnd
-    obtain ⟨hnd', hfl, hfe⟩ := hfresh hnd
+    obtain ⟨hnd', hfl, _, hfe⟩ := hfresh hnd
     rw [hcfg] at hsub
     rw [hevents, hsub, if_pos rfl, aevs_append, aevs_map_sels]
     rcases (hmem x).1 hx with hx | hx
@@ -685,13 +793,110 @@ theorem Inv.connect {cfg0 : HubCfg} {a : Abs} (h : Inv cfg0 a) (c : CoreC) (n : 
       simp
   · intro hnd hsub x hx
     rw [hlab] at hnd
-    obtain ⟨hnd', hfl, hfe⟩ := hfresh hnd
+    obtain ⟨hnd', hfl, _, hfe⟩ := hfresh hnd
     rw [hcfg] at hsub
     rw [hevents, hsub, if_pos rfl, aevs_append, aevs_map_sels]
     rcases (hmem x).1 hx with hx | hx
     · rw [h.ev_end hnd' hsub x hx]
       simp
     · rw [hx, aevs_of_no_label _ _ _ hfe, ho]
+      simp
+  · intro hnd hsub f hf
+    rw [hlab] at hnd
+    obtain ⟨hnd', _, hff, _⟩ := hfresh hnd
+    rw [hcfg] at hsub
+    have hf' : f ∈ a.failed := hf
+    have hne : ¬ c.label = f.1 := fun e => hff f hf' e.symm
+    obtain ⟨e1, e2⟩ := h.ev_fail hnd' hsub f hf'
+    rw [hevents, hsub, if_pos rfl, aevs_append, aevs_append, aevs_map_sels, aevs_map_sels, e1, e2]
+    simp [hne]
+
+/-! #### a failed registration preserves the invariant -/
+
+theorem Inv.fail {cfg0 : HubCfg} {a : Abs} (h : Inv cfg0 a) (l : Nat) (sels : List Str) (n : Nat)
+    (hn : a.uuid ≤ n) : Inv cfg0 (a.fail l sels n) := by
+  generalize ho : (a.cfg.subscriptions && !a.closed) = o
+  have hevents : (a.fail l sels n).events =
+      a.events ++ (if o then sels.map (fun s => (l, s, true)) else [])
+        ++ (if o then sels.map (fun s => (l, s, false)) else []) := by rw [← ho]; rfl
+  have hfailed : (a.fail l sels n).failed = a.failed ++ [(l, sels, !a.closed)] := rfl
+  have hlab : (a.fail l sels n).labs = a.labs ++ [l] := by
+    show a.conns.map (·.label) ++ (a.failed ++ [(l, sels, !a.closed)]).map (·.1) = _
+    rw [List.map_append, ← List.append_assoc]; rfl
+  have hfresh : (a.labs ++ [l]).Nodup →
+      a.labs.Nodup ∧ (∀ x ∈ a.conns, x.label ≠ l) ∧ (∀ f ∈ a.failed, f.1 ≠ l) ∧ ∀ e ∈ a.events, e.1 ≠ l := by
+    intro hnd
+    obtain ⟨h1, h2⟩ := nodup_snoc hnd
+    have h4 : ∀ x ∈ a.conns, x.label ≠ l := fun x hx e =>
+      h2 (List.mem_append.2 (Or.inl (e ▸ List.mem_map.2 ⟨x, hx, rfl⟩)))
+    have h5 : ∀ f ∈ a.failed, f.1 ≠ l := fun f hf e =>
+      h2 (List.mem_append.2 (Or.inr (e ▸ List.mem_map.2 ⟨f, hf, rfl⟩)))
+    exact ⟨h1, h4, h5, h.ev_fresh l h4 h5⟩
+  -- the new events, seen from label `l'`
+  have hnew : ∀ (l' : Nat) (b : Bool),
+      aevs (a.fail l sels n).events l' b = aevs a.events l' b ++ (if o && l == l' then sels else []) := by
+    intro l' b
+    rw [hevents, aevs_append, aevs_append, List.append_assoc]
+    congr 1
+    cases o
+    · simp [aevs]
+    · simp only [if_true, aevs_map_sels, Bool.true_and]
+      by_cases hl : (l == l') = true
+      · cases b <;> simp [hl]
+      · cases b <;> simp [hl]
+  refine { cfg := h.cfg, so_done := h.so_done, ev_labels := ?_, ev_off := ?_, epoch_le := h.epoch_le, sids := ?_,
+           idx_sub := h.idx_sub, index := ?_, ev_start := ?_, ev_end := ?_, ev_fail := ?_ }
+  · intro e hee
+    rw [hevents, List.append_assoc] at hee
+    rcases List.mem_append.1 hee with he1 | he2
+    · rcases h.ev_labels e he1 with hc | ⟨f, hf, hfe⟩
+      · exact Or.inl hc
+      · exact Or.inr ⟨f, by rw [hfailed]; exact List.mem_append.2 (Or.inl hf), hfe⟩
+    · refine Or.inr ⟨(l, sels, !a.closed), by rw [hfailed]; exact List.mem_append.2 (Or.inr (List.mem_singleton.2 rfl)), ?_⟩
+      cases o
+      · simp at he2
+      · simp only [if_true, List.mem_append, List.mem_map] at he2
+        rcases he2 with ⟨s, _, hse⟩ | ⟨s, _, hse⟩ <;> rw [← hse]
+  · intro hoff
+    have hoff' : a.cfg.subscriptions = false := hoff
+    rw [hevents, h.ev_off hoff']
+    rw [hoff'] at ho
+    rw [← ho]; rfl
+  · obtain ⟨ns, h1, h2, h3⟩ := h.sids
+    exact ⟨ns, h1, h2, fun m hm => Nat.lt_of_lt_of_le (h3 m hm) hn⟩
+  · intro hnd hcl
+    rw [hlab] at hnd
+    exact h.index (hfresh hnd).1 hcl
+  · intro hnd hsub x hx
+    rw [hlab] at hnd
+    obtain ⟨hnd', hfl, _, _⟩ := hfresh hnd
+    have hx' : x ∈ a.conns := hx
+    have hne : (l == x.label) = false := by simpa using fun e => hfl x hx' e.symm
+    rw [hnew, hne, Bool.and_false, h.ev_start hnd' hsub x hx']
+    simp
+  · intro hnd hsub x hx
+    rw [hlab] at hnd
+    obtain ⟨hnd', hfl, _, _⟩ := hfresh hnd
+    have hx' : x ∈ a.conns := hx
+    have hne : (l == x.label) = false := by simpa using fun e => hfl x hx' e.symm
+    rw [hnew, hne, Bool.and_false, h.ev_end hnd' hsub x hx']
+    simp
+  · intro hnd hsub f hf
+    rw [hlab] at hnd
+    obtain ⟨hnd', _, hff, hfe⟩ := hfresh hnd
+    have hsub' : a.cfg.subscriptions = true := hsub
+    rw [hfailed] at hf
+    rcases List.mem_append.1 hf with hf1 | hf2
+    · have hne : (l == f.1) = false := by simpa using fun e => hff f hf1 e.symm
+      obtain ⟨e1, e2⟩ := h.ev_fail hnd' hsub' f hf1
+      rw [hnew, hnew, hne, Bool.and_false, e1, e2]
+      simp
+    · rw [List.mem_singleton.1 hf2]
+      show aevs _ l true = (if (!a.closed) = true then sels else []) ∧
+           aevs _ l false = (if (!a.closed) = true then sels else [])
+      rw [hnew, hnew, aevs_of_no_label _ _ _ hfe, aevs_of_no_label _ _ _ hfe]
+      rw [hsub', Bool.true_and] at ho
+      rw [ho]
       simp
 
 /-! #### shutdown preserves the invariant -/
@@ -785,8 +990,14 @@ theorem Inv.shutdown {cfg0 : HubCfg} {a : Abs} (h : Inv cfg0 a) (l n : Nat) (hn 
     cases hh : c.shutdownOpen
     · rfl
     · have := h.so_done c hc hh; rw [hcd] at this; cases this
+  -- the labels in use are unchanged
+  have hlabs : ∀ (idx : List Nat) (ev : List (Nat × Str × Bool)),
+      ({ a with conns := a.conns.map (CoreC.shut l o), index := idx, events := ev, uuid := n } : Abs).labs = a.labs := by
+    intro idx ev
+    show (a.conns.map (CoreC.shut l o)).map (·.label) ++ a.failed.map (·.1) = _
+    rw [hlab]; rfl
   refine { cfg := h.cfg, so_done := ?_, ev_labels := ?_, ev_off := ?_, epoch_le := ?_, sids := ?_,
-           index := ?_, ev_start := ?_, ev_end := ?_ }
+           idx_sub := ?_, index := ?_, ev_start := ?_, ev_end := ?_, ev_fail := ?_ }
   · intro x hx hxo
     obtain ⟨y, hy, rfl⟩ := hmem x hx
     by_cases hyl : y.label = l
@@ -795,9 +1006,10 @@ theorem Inv.shutdown {cfg0 : HubCfg} {a : Abs} (h : Inv cfg0 a) (l n : Nat) (hn 
   · intro e hee
     have hee' : e ∈ a.events ++ (if a.cfg.subscriptions && o then c.sels.map (fun s => (l, s, false)) else []) := hee
     rcases List.mem_append.1 hee' with he1 | he2
-    · obtain ⟨y, hy, hye⟩ := h.ev_labels e he1
-      exact ⟨CoreC.shut l o y, List.mem_map.2 ⟨y, hy, rfl⟩, by rw [shut_label]; exact hye⟩
-    · refine ⟨CoreC.shut l o c, List.mem_map.2 ⟨c, hc, rfl⟩, ?_⟩
+    · rcases h.ev_labels e he1 with ⟨y, hy, hye⟩ | hf
+      · exact Or.inl ⟨CoreC.shut l o y, List.mem_map.2 ⟨y, hy, rfl⟩, by rw [shut_label]; exact hye⟩
+      · exact Or.inr hf
+    · refine Or.inl ⟨CoreC.shut l o c, List.mem_map.2 ⟨c, hc, rfl⟩, ?_⟩
       rw [shut_label, hcl]
       split at he2
       · obtain ⟨s, _, hse⟩ := List.mem_map.1 he2
@@ -815,10 +1027,19 @@ theorem Inv.shutdown {cfg0 : HubCfg} {a : Abs} (h : Inv cfg0 a) (l n : Nat) (hn 
     rw [← h1]
     show (a.conns.map (CoreC.shut l o)).map (·.sid) = _
     rw [List.map_map]; apply List.map_congr_left; intro y _; exact shut_sid l o y
+  · intro x hx
+    have hx' : x ∈ (if o = true then a.index.filter (· != l) else a.index) := hx
+    have hx'' : x ∈ a.index := by
+      cases o
+      · exact hx'
+      · exact (List.mem_filter.1 hx').1
+    obtain ⟨y, hy, hyx⟩ := h.idx_sub x hx''
+    exact ⟨CoreC.shut l o y, List.mem_map.2 ⟨y, hy, rfl⟩, by rw [shut_label]; exact hyx⟩
   · intro hnd hclosed
-    have hnd' : (a.conns.map (·.label)).Nodup := by rw [← hlab]; exact hnd
+    have hnd'' : a.labs.Nodup := by rw [← hlabs]; exact hnd
+    have hnd' : (a.conns.map (·.label)).Nodup := labs_nodup_conns hnd''
     have hclosed' : a.closed = false := hclosed
-    have hidx := h.index hnd' hclosed'
+    have hidx := h.index hnd'' hclosed'
     show (if o = true then a.index.filter (· != l) else a.index) =
       ((a.conns.map (CoreC.shut l o)).filter (fun x => !x.done && x.epoch == a.epoch)).map (·.label)
     cases o with
@@ -837,22 +1058,24 @@ theorem Inv.shutdown {cfg0 : HubCfg} {a : Abs} (h : Inv cfg0 a) (l n : Nat) (hn 
         simp at ho
         simp [ho]
   · intro hnd hsub x hx
-    have hnd' : (a.conns.map (·.label)).Nodup := by rw [← hlab]; exact hnd
+    have hnd'' : a.labs.Nodup := by rw [← hlabs]; exact hnd
+    have hnd' : (a.conns.map (·.label)).Nodup := labs_nodup_conns hnd''
     have hsub' : a.cfg.subscriptions = true := hsub
     obtain ⟨y, hy, rfl⟩ := hmem x hx
     show aevs (a.events ++ (if a.cfg.subscriptions && o then c.sels.map (fun s => (l, s, false)) else []))
       (CoreC.shut l o y).label true = (CoreC.shut l o y).sels
-    rw [shut_label, shut_sels, aevs_append, h.ev_start hnd' hsub' y hy]
+    rw [shut_label, shut_sels, aevs_append, h.ev_start hnd'' hsub' y hy]
     split
     · rw [aevs_map_sels]; simp
     · simp [aevs]
   · intro hnd hsub x hx
-    have hnd' : (a.conns.map (·.label)).Nodup := by rw [← hlab]; exact hnd
+    have hnd'' : a.labs.Nodup := by rw [← hlabs]; exact hnd
+    have hnd' : (a.conns.map (·.label)).Nodup := labs_nodup_conns hnd''
     have hsub' : a.cfg.subscriptions = true := hsub
     obtain ⟨y, hy, rfl⟩ := hmem x hx
     show aevs (a.events ++ (if a.cfg.subscriptions && o then c.sels.map (fun s => (l, s, false)) else []))
       (CoreC.shut l o y).label false = if (CoreC.shut l o y).shutdownOpen then (CoreC.shut l o y).sels else []
-    rw [shut_label, shut_sels, aevs_append, h.ev_end hnd' hsub' y hy, hsub', Bool.true_and]
+    rw [shut_label, shut_sels, aevs_append, h.ev_end hnd'' hsub' y hy, hsub', Bool.true_and]
     by_cases hyl : y.label = l
     · have : y = c := eq_of_map_nodup (·.label) hnd' hy hc (by rw [hyl, hcl])
       rw [this, shut_of_eq l o c hcl, hcso]
@@ -864,6 +1087,22 @@ theorem Inv.shutdown {cfg0 : HubCfg} {a : Abs} (h : Inv cfg0 a) (l n : Nat) (hn 
       cases o
       · simp [aevs]
       · simp [aevs_map_sels, hne]
+  · intro hnd hsub f hf
+    have hnd'' : a.labs.Nodup := by rw [← hlabs]; exact hnd
+    have hsub' : a.cfg.subscriptions = true := hsub
+    have hf' : f ∈ a.failed := hf
+    have hne : ¬ l = f.1 := fun e => labs_nodup_disj hnd'' c hc f hf' (hcl.trans e)
+    obtain ⟨e1, e2⟩ := h.ev_fail hnd'' hsub' f hf'
+    show aevs (a.events ++ (if a.cfg.subscriptions && o then c.sels.map (fun s => (l, s, false)) else [])) f.1 true = _ ∧
+         aevs (a.events ++ (if a.cfg.subscriptions && o then c.sels.map (fun s => (l, s, false)) else [])) f.1 false = _
+    have hz : ∀ b, aevs (if (a.cfg.subscriptions && o) = true then c.sels.map (fun s => (l, s, false)) else [])
+        f.1 b = [] := by
+      intro b
+      split
+      · rw [aevs_map_sels]; simp [hne]
+      · rfl
+    rw [aevs_append, aevs_append, e1, e2, hz, hz, List.append_nil]
+    exact ⟨rfl, rfl⟩
 
 /-! ### reachable states satisfy the invariant -/
 
@@ -873,6 +1112,7 @@ theorem Gen.inv {cfg0 : HubCfg} {L : List Nat} {a b : Abs} (g : Gen L a b) (h : 
   | bump n hn _ ih => exact ih (h.bump n hn)
   | shutdown l n hn _ ih => exact ih (h.shutdown l n hn)
   | connect c n hc hs hn he hd ho _ ih => exact ih (h.connect c n hc hs hn he hd ho)
+  | fail l sels n hn _ ih => exact ih (h.fail l sels n hn)
   | close _ ih => exact ih h.close
   | restart _ ih => exact ih h.restart
 
@@ -884,15 +1124,33 @@ theorem Abs.shutdown_labels (a : Abs) (l n : Nat) :
     show (a.conns.map (CoreC.shut l _)).map (·.label) = _
     rw [List.map_map]; apply List.map_congr_left; intro y _; exact shut_label l _ y
 
-theorem Gen.labels {L : List Nat} {a b : Abs} (g : Gen L a b) :
-    b.conns.map (·.label) = a.conns.map (·.label) ++ L := by
+theorem Abs.shutdown_failed (a : Abs) (l n : Nat) : (a.shutdown l n).failed = a.failed := by
+  rcases Abs.shutdown_cases a l n with heq | ⟨c, _, _, _, heq⟩ <;> rw [heq]
+
+theorem Abs.shutdown_labs (a : Abs) (l n : Nat) : (a.shutdown l n).labs = a.labs := by
+  unfold Abs.labs; rw [Abs.shutdown_labels, Abs.shutdown_failed]
+
+/-- The labels in use after the steps: those before and those the steps used (up to order). -/
+theorem Gen.labels {L : List Nat} {a b : Abs} (g : Gen L a b) : b.labs.Perm (a.labs ++ L) := by
   induction g with
   | refl a => simp
   | bump n hn _ ih => exact ih
-  | shutdown l n hn _ ih => rw [ih, Abs.shutdown_labels]
-  | connect c n hc hs hn he hd ho _ ih =>
-    rw [ih]
-    simp [Abs.connect]
+  | @shutdown L a b l n hn _ ih => rw [Abs.shutdown_labs a l n] at ih; exact ih
+  | @connect L a b c n hc hs hn he hd ho _ ih =>
+    refine ih.trans ?_
+    have e : (a.connect c n).labs = a.conns.map (·.label) ++ c.label :: a.failed.map (·.1) := by
+      show (a.conns ++ [c]).map (·.label) ++ a.failed.map (·.1) = _
+      simp
+    rw [e]
+    show (a.conns.map (·.label) ++ c.label :: a.failed.map (·.1) ++ L).Perm
+      (a.conns.map (·.label) ++ a.failed.map (·.1) ++ c.label :: L)
+    exact ((List.perm_middle.append_right L).trans (List.perm_middle (l₁ := a.labs) (l₂ := L)).symm)
+  | @fail L a b l sels n hn _ ih =>
+    refine ih.trans ?_
+    have e : (a.fail l sels n).labs ++ L = a.labs ++ l :: L := by
+      show a.conns.map (·.label) ++ (a.failed ++ [(l, sels, !a.closed)]).map (·.1) ++ L = _
+      simp [Abs.labs]
+    rw [e]
   | close _ ih => exact ih
   | restart _ ih => exact ih
 
@@ -903,9 +1161,11 @@ theorem init_inv (cfg : HubCfg) (kind : Kind) (size cap : Nat) : Inv cfg (HubSt.
   ev_off := fun _ => rfl
   epoch_le := fun c hc => by cases hc
   sids := ⟨[], rfl, List.Pairwise.nil, fun n hn => by cases hn⟩
+  idx_sub := fun l hl => by cases hl
   index := fun _ _ => rfl
   ev_start := fun _ _ c hc => by cases hc
   ev_end := fun _ _ c hc => by cases hc
+  ev_fail := fun _ _ f hf => by cases hf
 
 theorem reach_gen (ops : List HubOp) :
     ∃ L, L.Sublist (ops.filterMap HubOp.connectLabel) ∧
@@ -916,10 +1176,11 @@ theorem reach_inv (ops : List HubOp) : Inv cfg (HubSt.reach M tokP tokS cfg kind
   obtain ⟨L, _, g⟩ := reach_gen M tokP tokS cfg kind size cap ops
   exact g.inv (init_inv cfg kind size cap)
 
+/-- With fresh labels, the labels of the connections and of the failed registrations are pairwise distinct. -/
 theorem reach_labels_nodup (ops : List HubOp) (hf : FreshLabels ops) :
-    ((HubSt.reach M tokP tokS cfg kind size cap ops).abs.conns.map (·.label)).Nodup := by
+    (HubSt.reach M tokP tokS cfg kind size cap ops).abs.labs.Nodup := by
   obtain ⟨L, hs, g⟩ := reach_gen M tokP tokS cfg kind size cap ops
-  rw [g.labels]
+  rw [g.labels.nodup_iff]
   show ([] ++ L).Nodup
   rw [List.nil_append]
   exact List.Nodup.sublist hs hf
@@ -998,14 +1259,42 @@ theorem reach_shutdownOpen_done (ops : List HubOp) :
   intro c hc hso
   exact (reach_inv M tokP tokS cfg kind size cap ops).so_done c.core (List.mem_map.2 ⟨c, hc, rfl⟩) hso
 
-/-- Events only ever concern accepted connections. -/
+/-- Events only ever concern accepted connections or registrations that failed half-way. -/
 theorem reach_events_labels (ops : List HubOp) :
     ∀ e ∈ (HubSt.reach M tokP tokS cfg kind size cap ops).events,
-      ∃ c ∈ (HubSt.reach M tokP tokS cfg kind size cap ops).conns, c.label = e.1 := by
+      (∃ c ∈ (HubSt.reach M tokP tokS cfg kind size cap ops).conns, c.label = e.1) ∨
+      (∃ f ∈ (HubSt.reach M tokP tokS cfg kind size cap ops).failed, f.1 = e.1) := by
   intro e he
-  obtain ⟨x, hx, hxe⟩ := (reach_inv M tokP tokS cfg kind size cap ops).ev_labels e he
+  rcases (reach_inv M tokP tokS cfg kind size cap ops).ev_labels e he with ⟨x, hx, hxe⟩ | hf
+  · obtain ⟨c, hc, hcx⟩ := List.mem_map.1 hx
+    exact Or.inl ⟨c, hc, by rw [← hxe, ← hcx]; rfl⟩
+  · exact Or.inr hf
+
+/-- A registration that failed half-way was announced exactly once per selector with `active=true`
+    and exactly once with `active=false` when the hub was open, not at all when it was closed. -/
+theorem reach_failed_events (ops : List HubOp) (hf : FreshLabels ops) (h : cfg.subscriptions = true) :
+    ∀ f ∈ (HubSt.reach M tokP tokS cfg kind size cap ops).failed,
+      evs (HubSt.reach M tokP tokS cfg kind size cap ops) f.1 true = (if f.2.2 then f.2.1 else []) ∧
+      evs (HubSt.reach M tokP tokS cfg kind size cap ops) f.1 false = (if f.2.2 then f.2.1 else []) := by
+  intro f hfm
+  have hi := reach_inv M tokP tokS cfg kind size cap ops
+  exact hi.ev_fail (reach_labels_nodup M tokP tokS cfg kind size cap ops hf) (by rw [hi.cfg]; exact h) f hfm
+
+/-- A failed registration is neither a connection nor in the transport's subscriber list. -/
+theorem reach_failed_not_indexed (ops : List HubOp) (hf : FreshLabels ops) :
+    ∀ f ∈ (HubSt.reach M tokP tokS cfg kind size cap ops).failed,
+      f.1 ∉ (HubSt.reach M tokP tokS cfg kind size cap ops).index ∧
+      ∀ c ∈ (HubSt.reach M tokP tokS cfg kind size cap ops).conns, c.label ≠ f.1 := by
+  intro f hfm
+  have hi := reach_inv M tokP tokS cfg kind size cap ops
+  have hnd := reach_labels_nodup M tokP tokS cfg kind size cap ops hf
+  have hdisj : ∀ c ∈ (HubSt.reach M tokP tokS cfg kind size cap ops).conns, c.label ≠ f.1 := fun c hc =>
+    labs_nodup_disj hnd c.core (List.mem_map.2 ⟨c, hc, rfl⟩) f hfm
+  refine ⟨?_, hdisj⟩
+  intro hidx
+  obtain ⟨x, hx, hxl⟩ := hi.idx_sub f.1 hidx
   obtain ⟨c, hc, hcx⟩ := List.mem_map.1 hx
-  exact ⟨c, hc, by rw [← hxe, ← hcx]; rfl⟩
+  exact hdisj c hc (by rw [← hxl, ← hcx]; rfl)
 
 /-! ### escaping -/
 
